@@ -825,11 +825,12 @@ func c16Burst(tier string, seed int64, idx int, c c16Case, res *core.Result) {
 
 func init() {
 	core.Register(&core.Prop{
-		ID:    "C16",
-		Level: "exploration",
-		Rule:  "(envelopes) 1..8 attached + 0..4 dialable scripted peers on one proxy, each attached peer sends uniquely numbered envelopes (random bodies, some with status/trailer, earlier ProxyRecord, a ProxyNext route, alias / blocked / unknown destinations) under one of 4 rewriting functions, with a credit scheme keeping <=12 outstanding per destination; per (source, destination) the delivered sequence must equal the sent sequence, proto.Equal modulo ProxyRecord (+ exactly one proxy name), ProxyNext (last hop popped) and the rewritten destination, each peer dialled at most once, proxy.drop never fires. (rpc) the C01 proxy-topology cases and C02 cases forced through client-proxy-demux-serve must pass their own oracles with zero drops. (redial) the first 1..3 dials of a name fail and later ones succeed: envelopes sent after the failure was reported arrive in order through a fresh dial. (refail) a peer re-attaches and the superseded connection fails afterwards; a dialled peer's connection faults while the serve loop is held in the rewriting function: later envelopes reach the peer currently attached / a fresh dial. (burst) server-stream of 50 and 64 concurrent unary calls above the buffer: loss must be exactly accounted for by the drop hook and never a reorder/duplicate. Distinct = case descriptors; all non-trivial.",
-		Plan:  func(tier string, seed int64) int { return len(c16List(tier)) },
-		Run:   c16Run,
+		ID:             "C16",
+		Level:          "exploration",
+		Rule:           "(envelopes) 1..8 attached + 0..4 dialable scripted peers on one proxy, each attached peer sends uniquely numbered envelopes (random bodies, some with status/trailer, earlier ProxyRecord, a ProxyNext route, alias / blocked / unknown destinations) under one of 4 rewriting functions, with a credit scheme keeping <=12 outstanding per destination; per (source, destination) the delivered sequence must equal the sent sequence, proto.Equal modulo ProxyRecord (+ exactly one proxy name), ProxyNext (last hop popped) and the rewritten destination, each peer dialled at most once, proxy.drop never fires. (rpc) the C01 proxy-topology cases and C02 cases forced through client-proxy-demux-serve must pass their own oracles with zero drops. (redial) the first 1..3 dials of a name fail and later ones succeed: envelopes sent after the failure was reported arrive in order through a fresh dial. (refail) a peer re-attaches and the superseded connection fails afterwards; a dialled peer's connection faults while the serve loop is held in the rewriting function: later envelopes reach the peer currently attached / a fresh dial. (burst) server-stream of 50 and 64 concurrent unary calls above the buffer: loss must be exactly accounted for by the drop hook and never a reorder/duplicate. Distinct = case descriptors; all non-trivial.",
+		Plan:           func(tier string, seed int64) int { return len(c16List(tier)) },
+		ThoroughRounds: 4,
+		Run:            c16Run,
 		RequiredStats: func(string) []string {
 			return []string{"envelopes_delivered_and_compared", "rpc_workload_cases_through_proxy", "burst_streams", "hook:proxy.forward", "redial_cases", "refail_cases"}
 		},
